@@ -18,5 +18,16 @@ func properties() map[string]*PropertySpec {
 			{Name: "H_C16_controls", Native: true, Reach: []string{"constructed"}, Bound: "7 constructors x every sequence of <= 3 options drawn from 5 options and nil; all uint values"},
 			{Name: "H_C16_mux", Native: true, Reach: []string{"registered"}, Bound: "8 registration methods x nil/non-nil handler x <= 3 options"},
 		}})
+	add(&PropertySpec{ID: "C02",
+		Functions: "(*conn).readRequest, (*conn).readPacket, newRequest, newMessage, (*packet).{basicValidation,requestPacket,requestType,requestMessageID,simpleBindParameters,searchParmeters,modifyParameters,addParameters,deleteParameters,extendedOperationName,controlPacket,assert,assertApplicationRequest}, decodeControl, decodeAttribute, NewControl*",
+		Outside:   []string{"byte-level framing (length octets, truncation, EOC, oversize): the asn1-ber reader's error outcome by contract (DESIGN §5.1)", "panics inside asn1-ber's reader and go-ldap's DecompileFilter (it recovers)", "universal REAL and GeneralizedTime payloads (opaque values)", "trees deeper than 5 below the envelope or wider than the stated widths"},
+		Harnesses: []HarnessSpec{
+			{Name: "H_C02_readRequest", Native: true, Tiers: "quick", Reach: []string{"returned", "decoded"},
+				Bound: "symbolic wire tree: depth <= 5, children: envelope <= 4, request <= 9, controls <= 1 x <= 4 children, lists <= 2-3; control value re-decoded as a symbolic tree of depth 3, width 2; every node's class/type/tag/content unconstrained",
+				Tweak: func(c *HarnessCfg, tier string) { c.DecodeWidths = "def=2" }},
+			{Name: "H_C02_readRequest_wide", Native: true, Tiers: "thorough", Reach: []string{"returned", "decoded"},
+				Bound: "as quick, with <= 2 controls per message and control values re-decoded at width 3",
+				Tweak: func(c *HarnessCfg, tier string) { c.DecodeWidths = "def=3"; c.MaxPaths = 1500000 }},
+		}})
 	return m
 }
